@@ -2,6 +2,7 @@ SPECIFICATION MCSpec
 CONSTANTS
   DELETE_MODE = "slot-only"
   COMPLETE_ZERO = FALSE
+  STRIP_TE = TRUE
   MaxOps = 3
 INVARIANTS StepOK SizeExact NoOverrun SizeExactAfterFinish Refines
 CHECK_DEADLOCK FALSE
